@@ -4,7 +4,8 @@ PROP = dict(
     level='proof',
     regen=['crctable', 'wireconsts'],
     theorems=['Fit.C09.C09_bufio_transparent', 'Fit.C09.C09_bufio_eq_direct', 'Fit.C09.C09_dryrun_equals_run',
-              'Fit.C09.C09_same_bytes_batch', 'Fit.C09.C09_kinds_agree'],
+              'Fit.C09.C09_same_bytes_batch', 'Fit.C09.C09_kinds_agree', 'Fit.C09.C09_stream_equals_batch',
+              'Fit.C09.C09_same_bytes_stream', 'Fit.C09.C09_same_bytes'],
     families=[dict(name='enc-writers', prop=True)],
     trusted_base=STD_TRUST + [
         "FitModel/Writer.lean (destination, bufio.Writer from its documented behaviour, writerAt/writeSeeker wrappers, the three output paths of encoder.go, stream.go) is tied to the code by family enc-writers: the real Encoder/StreamEncoder on instrumented destinations of the four kinds; results per API call, the destination's operation log (kind, length, offset, bytes taken) and final content compared with the model",
